@@ -438,3 +438,213 @@ theorem readNumber_line (body : List Nat) (st : LexState) (start first : Nat)
     exact hInt () _ (by simp [pos0]) (NoNL.refl _ _) (fun _ => hd)
 
 end Gql.Text
+
+/-! Part 3: strings. -/
+namespace Gql.Text
+open Spec
+
+theorem hex_not_nl (c d : Nat) (h : readHexDigit (some c) = some d) : c ≠ 10 ∧ c ≠ 13 := by
+  unfold readHexDigit at h
+  constructor <;> (intro e; subst e; simp at h)
+
+theorem nonl_of_get (body : List Nat) (p : Nat) (hl : p < body.length)
+    (hc : body[p] ≠ 10 ∧ body[p] ≠ 13) : NoNL body p (p + 1) :=
+  (NoNL.refl body p).snoc hl hc
+
+theorem read16_nonl (body : List Nat) (p v : Nat) (h : read16 body p = some v) :
+    p + 4 ≤ body.length ∧ NoNL body p (p + 4) := by
+  unfold read16 at h
+  split at h
+  · rename_i a b c d h1 h2 h3 h4
+    have g : ∀ q x, readHexDigit (charAt body q) = some x →
+        ∃ hl : q < body.length, body[q] ≠ 10 ∧ body[q] ≠ 13 := by
+      intro q x hq
+      cases hc : charAt body q with
+      | none => rw [hc] at hq; simp [readHexDigit] at hq
+      | some ch =>
+        obtain ⟨hl, hg⟩ := charAt_some_get body q ch hc
+        rw [hc] at hq
+        exact ⟨hl, by rw [hg]; exact hex_not_nl ch x hq⟩
+    obtain ⟨l1, n1⟩ := g _ _ h1
+    obtain ⟨l2, n2⟩ := g _ _ h2
+    obtain ⟨l3, n3⟩ := g _ _ h3
+    obtain ⟨l4, n4⟩ := g _ _ h4
+    refine ⟨by omega, ?_⟩
+    exact ((((NoNL.refl body p).snoc l1 n1).snoc l2 n2).snoc l3 n3).snoc l4 n4
+  · simp at h
+
+theorem varWidthLoop_nonl (body : List Nat) (position maxSize size point : Nat)
+    (hm : position + maxSize ≤ body.length) (hn : NoNL body position (position + size)) :
+    Post (fun r => size < r.2 ∧ position + r.2 ≤ body.length ∧ NoNL body position (position + r.2))
+      (varWidthLoop body position maxSize size point) := by
+  fun_induction varWidthLoop body position maxSize size point
+  · rename_i size point hlt ih
+    rw [index_ok _ _ (by omega)]
+    simp only [Out.bind_ok]
+    have hl : position + size < body.length := by omega
+    split
+    · rename_i hc
+      have hnl : body[position + size] ≠ 10 ∧ body[position + size] ≠ 13 := by simp [hc]
+      split
+      · simp
+      · simp only [post_pure]
+        exact ⟨by omega, by omega, hn.snoc hl hnl⟩
+    · split
+      · rename_i d hd
+        have hnl := hex_not_nl _ _ hd
+        refine (ih _ (hn.snoc hl hnl)).mono ?_
+        intro a ha; exact ⟨by omega, ha.2.1, ha.2.2⟩
+      · simp
+  · simp
+
+theorem charAt_eq_nonl (body : List Nat) (p c : Nat) (h : charAt body p = some c)
+    (hc : c ≠ 10 ∧ c ≠ 13) : p < body.length ∧ NoNL body p (p + 1) := by
+  obtain ⟨hl, hg⟩ := charAt_some_get body p c h
+  exact ⟨hl, nonl_of_get body p hl (by rw [hg]; exact hc)⟩
+
+theorem slice2_nonl (body : List Nat) (p a b : Nat) (h : slice body p (p + 2) = [a, b])
+    (ha : a ≠ 10 ∧ a ≠ 13) (hb : b ≠ 10 ∧ b ≠ 13) : p + 2 ≤ body.length ∧ NoNL body p (p + 2) := by
+  unfold slice at h
+  have e : p + 2 - p = 2 := by omega
+  rw [e] at h
+  have h0 : (body.drop p)[0]? = some a := by
+    have := congrArg (fun l => l[0]?) h; simpa using this
+  have h1 : (body.drop p)[1]? = some b := by
+    have := congrArg (fun l => l[1]?) h; simpa using this
+  rw [List.getElem?_drop] at h0 h1
+  obtain ⟨l0, n0⟩ := charAt_eq_nonl body p a (by simpa [charAt] using h0) ha
+  obtain ⟨l1, n1⟩ := charAt_eq_nonl body (p + 1) b (by simpa [charAt] using h1) hb
+  exact ⟨by omega, n0.trans n1⟩
+
+end Gql.Text
+
+namespace Gql.Text
+open Spec
+
+/-- Post-condition shared by the three escape readers. -/
+def EscPost (body : List Nat) (pos : Nat) (size : Nat) : Prop :=
+  2 ≤ size ∧ pos + size ≤ body.length ∧ NoNL body pos (pos + size)
+
+theorem escapedChar_not_nl (c v : Nat) (h : escapedChar (some c) = some v) : c ≠ 10 ∧ c ≠ 13 := by
+  constructor <;> (intro e; subst e; simp [escapedChar] at h)
+
+theorem readEscapedCharacter_nonl (body : List Nat) (pos : Nat) (h0 : charAt body pos = some 92) :
+    Post (fun r => EscPost body pos r.2) (readEscapedCharacter body pos) := by
+  unfold readEscapedCharacter
+  split
+  · rename_i v h
+    cases h5 : charAt body (pos + 1) with
+    | none => simp [h5, escapedChar] at h
+    | some c =>
+      rw [h5] at h
+      obtain ⟨l0, n0⟩ := charAt_eq_nonl body pos 92 h0 (by simp)
+      obtain ⟨l1, n1⟩ := charAt_eq_nonl body (pos + 1) c h5 (escapedChar_not_nl c v h)
+      simp only [post_pure]
+      exact ⟨by omega, by omega, n0.trans n1⟩
+  · simp
+
+theorem readEscapedUnicodeFixedWidth_nonl (body : List Nat) (pos : Nat)
+    (h0 : charAt body pos = some 92) (h1 : charAt body (pos + 1) = some 117) :
+    Post (fun r => EscPost body pos r.2) (readEscapedUnicodeFixedWidth body pos) := by
+  unfold readEscapedUnicodeFixedWidth
+  obtain ⟨l0, n0⟩ := charAt_eq_nonl body pos 92 h0 (by simp)
+  obtain ⟨l1, n1⟩ := charAt_eq_nonl body (pos + 1) 117 h1 (by simp)
+  split
+  · simp
+  · rename_i code h
+    obtain ⟨l2, n2⟩ := read16_nonl _ _ _ h
+    have n6 : NoNL body pos (pos + 6) := (n0.trans n1).trans n2
+    split
+    · simp only [post_pure]; exact ⟨by omega, by omega, n6⟩
+    · split
+      · rename_i hs
+        obtain ⟨l3, n3⟩ := slice2_nonl body (pos + 6) 92 117 hs.2 (by simp) (by simp)
+        split
+        · rename_i t ht
+          obtain ⟨l4, n4⟩ := read16_nonl _ _ _ ht
+          split
+          · simp only [post_pure]
+            exact ⟨by omega, by omega, (n6.trans n3).trans n4⟩
+          · simp
+        · simp
+      · simp
+
+theorem readEscapedUnicodeVariableWidth_nonl (body : List Nat) (pos : Nat)
+    (h0 : charAt body pos = some 92) (h1 : charAt body (pos + 1) = some 117)
+    (h2 : charAt body (pos + 2) = some 123) :
+    Post (fun r => EscPost body pos r.2) (readEscapedUnicodeVariableWidth body pos) := by
+  unfold readEscapedUnicodeVariableWidth
+  obtain ⟨l0, n0⟩ := charAt_eq_nonl body pos 92 h0 (by simp)
+  obtain ⟨l1, n1⟩ := charAt_eq_nonl body (pos + 1) 117 h1 (by simp)
+  obtain ⟨l2, n2⟩ := charAt_eq_nonl body (pos + 2) 123 h2 (by simp)
+  refine (varWidthLoop_nonl body pos _ 3 0 (by omega) ((n0.trans n1).trans n2)).mono ?_
+  intro a ha
+  exact ⟨by omega, ha.2.1, ha.2.2⟩
+
+theorem isScalar_or_not_nl (body : List Nat) (pos : Nat) (hl : pos < body.length)
+    (h : ¬ (body[pos] = 13 ∨ body[pos] = 10)) : body[pos] ≠ 10 ∧ body[pos] ≠ 13 := by
+  constructor <;> (intro e; apply h; simp [e])
+
+theorem readStringLoop_line (body : List Nat) (st : LexState) (start pos chunkStart : Nat)
+    (acc : List Nat) (hp : start < pos) (hn : NoNL body start pos) :
+    Post (TokLine body st start) (readStringLoop body st start pos chunkStart acc) := by
+  fun_induction readStringLoop body st start pos chunkStart acc
+  · rename_i pos chunkStart acc hlt ih3 ih2 ih1
+    rw [index_ok _ _ hlt]
+    simp only [Out.bind_ok]
+    split
+    · rename_i hq
+      simp only [post_pure]
+      exact ⟨rfl, rfl, rfl, by simp [mkToken]; omega, by simp [mkToken]; omega,
+        by simpa [mkToken] using hn.snoc hlt (by simp [hq])⟩
+    split
+    · rename_i hb
+      have h0 : charAt body pos = some 92 := by simp [charAt, List.getElem?_eq_getElem hlt, hb]
+      have key : ∀ (x : LexOut (List Nat × Nat)), Post (fun r => EscPost body pos r.2) x →
+          Post (TokLine body st start)
+            (x >>= fun esc =>
+              if esc.2 = 0 then .crash "NoProgress"
+              else readStringLoop body st start (pos + esc.2) (pos + esc.2)
+                (acc ++ slice body chunkStart pos ++ esc.1)) := by
+        intro x hx
+        refine hx.bind ?_
+        intro a ha
+        split
+        · have := ha.1; omega
+        · rename_i hz
+          exact ih3 a hz (by have := ha.1; omega) (hn.trans ha.2.2)
+      split
+      · rename_i hu
+        split
+        · rename_i hbr
+          have hv := readEscapedUnicodeVariableWidth_nonl body pos h0 hu hbr
+          simp only [bind_assoc, Out.pure_eq, Out.bind_ok]
+          refine hv.bind ?_
+          intro a ha
+          split
+          · have := ha.1; omega
+          · rename_i hz
+            exact ih3 ([a.1], a.2) hz (by have := ha.1; omega) (hn.trans ha.2.2)
+        · simpa using key _ (readEscapedUnicodeFixedWidth_nonl body pos h0 hu)
+      · simpa using key _ (readEscapedCharacter_nonl body pos h0)
+    split
+    · simp
+    · rename_i hnl
+      have hc := isScalar_or_not_nl body pos hlt hnl
+      split
+      · exact ih2 (by omega) (hn.snoc hlt hc)
+      split
+      · rename_i hs
+        obtain ⟨h1, h2, l1, l2⟩ := isSupplementary_spec body pos hs
+        exact ih1 (by omega) ((hn.snoc hlt hc).snoc h2 (trail_not_nl _ l2))
+      · simp
+  · simp
+
+theorem readString_line (body : List Nat) (st : LexState) (start : Nat)
+    (h : charAt body start = some 34) :
+    Post (TokLine body st start) (readString body st start) := by
+  unfold readString
+  obtain ⟨l0, n0⟩ := charAt_eq_nonl body start 34 h (by simp)
+  exact readStringLoop_line body st start (start + 1) (start + 1) [] (by omega) n0
+
+end Gql.Text
